@@ -16,17 +16,17 @@ type Knobs map[string]bool
 // AllKnobs in a fixed order (documentation in CONTRACT.md).
 var AllKnobs = []string{
 	// configuration
-	"sub3", // 3-4 subgraphs instead of 2
+	"sub3",      // 3-4 subgraphs instead of 2
 	"manytypes", // up to 10 object types instead of up to 5
 	"compoundkeys", "nestedkeys", "multikeys",
 	"valuetypes", "localtypes", "interfaces", "unions",
 	"lists", "nonnull", "enums",
 	"args", "inputargs", "lookups",
 	"requires", "provides", "shareable",
-	"partialinterfaces", // a second subgraph declares an interface with its id field only and returns it
+	"partialinterfaces",  // a second subgraph declares an interface with its id field only and returns it
 	"extinterfacefields", // an interface field of an entity is owned by another subgraph (@external in the interface's home)
-	"unresolvable",      // reference-only entity stubs are declared @key(resolvable: false)
-	"keyhop",            // an extension subgraph declares only the second key (needs multikeys)
+	"unresolvable",       // reference-only entity stubs are declared @key(resolvable: false)
+	"keyhop",             // an extension subgraph declares only the second key (needs multikeys)
 	// universe
 	"nulls", "errors",
 	// operations
@@ -128,8 +128,8 @@ type cfgGen struct {
 	// external declarations added for requires / provides: sub -> type -> field -> true
 	ext map[int]map[string]map[string]bool
 	// directives per (sub, type, field)
-	requires map[string]string
-	provides map[string]string
+	requires   map[string]string
+	provides   map[string]string
 	rootOwners map[string]int
 }
 
